@@ -258,4 +258,58 @@ def quantFloor (B v : Nat) : Option Nat :=
 def quantCeil (B v : Nat) : Option Nat :=
   match channelCeil B v with | some x => chanNew B x | none => none
 
+/-! ### the flat-block paths, end to end (tied to the real encoders by the `T` cases of the C15 harness)
+
+A 4×4 block whose 16 pixels are one colour takes a path that consists of modelled operations only: the glam
+clamp, `(min + max) * 0.5`, the quantisers above and two integer → float conversions.  The driver prints the
+bytes these definitions predict and check.py compares them with the bytes `dds::encode` writes: this ties the
+constants, the operand order, the SSE2 `min`/`max` semantics on NaN and `-0.0`, and `s8::from_norm` to the code. -/
+
+def three : Nat := 0x40400000
+/-- `n8::f32` (src/color/formats.rs:270): `(x as f32 * 3.0) * (1.0 / (255.0 * 3.0))` -/
+def n8F32 (x : Nat) : Nat := fmul (fmul (ofNat x) three) (fdiv one (fmul k255 three))
+/-- `s8::uf32` after `s8::norm` (formats.rs:354): `(n as f32 * 31.0) * (1.0 / (254.0 * 31.0))`;
+`s8::norm(s8::from_norm(n)) = n` for `n ≤ 254` -/
+def s8Uf32Norm (n : Nat) : Nat := fmul (fmul (ofNat n) k31) (fdiv one (fmul k254 k31))
+/-- `BC4_EPSILON = 1. / 65536.` -/
+def eps16 : Nat := 0x37800000
+
+/-- `compress_bc4_block` (quality below Unreasonable) on a block of 16 equal values `x`: `from_raw` clamps,
+`min = max`, `diff = max - min = 0.0 < BC4_EPSILON`, `single_color((min + max) * 0.5)`; if
+`(closest.c0_f - value).abs() < BC4_EPSILON` the block is `[c0, c1, 0, 0, 0, 0, 0, 0]` (`some (some …)`), otherwise the
+palette search decides (`some none`: no prediction); `none` = a panic of the checked profile -/
+def bc4Flat (snorm : Bool) (x : Nat) : Option (Option (List Nat)) :=
+  let v := sseClamp01 x
+  let value := singleValue v v
+  match newClosest snorm value with
+  | none => none
+  | some (c0, c1) =>
+    let c0f := if snorm then s8Uf32Norm (toNatSat (fadd (fmul k254 value) half) 255) else n8F32 c0
+    if flt (fabs (fsub c0f value)) eps16 then some (some [c0, c1, 0, 0, 0, 0, 0, 0]) else some none
+
+/-- the same block when the early return is not taken: `single_color` goes on with
+`EndPoints::new_inter6(value, value, snorm)` (bc4.rs:172) and emits these endpoints, in this order or swapped
+(`inter6_to_inter4`), with indexes chosen by the float error comparison: the unordered pair of the first two bytes is
+predicted (`min = max`, so the rounded codes are equal and the second stage of `endsNorm` always runs) -/
+def bc4FlatSearch (snorm : Bool) (x : Nat) : Option (Nat × Nat) :=
+  let v := sseClamp01 x
+  newInter6 false false snorm (singleValue v v) (singleValue v v)
+
+/-- `compress_bc1_block` (opaque, quality ≤ Normal: P4 only) on a block of 16 equal colours: glam clamp,
+`get_single_color` = `(min + max) * 0.5`, `compress_single_color`: if `R5G6B5Color::floor(color) ==
+R5G6B5Color::ceil(color)` the endpoints are `new_p4(BLACK, max)`: bytes `c0.to_u16()`, `c1.to_u16()` little endian =
+`[lo, hi, 0, 0]`, and `[1, 0, 0, 0]` for black (`c0.b = 1`); otherwise the candidate search decides -/
+def bc1Flat (r g b : Nat) : Option (Option (List Nat)) :=
+  let x := sseClamp01 r
+  let y := sseClamp01 g
+  let z := sseClamp01 b
+  match r5g6b5Floor true (singleValue x x) (singleValue y y) (singleValue z z),
+        r5g6b5Ceil true (singleValue x x) (singleValue y y) (singleValue z z) with
+  | some lo, some hi =>
+    if lo = hi then
+      let u := (hi.1 <<< 11) ||| (hi.2.1 <<< 5) ||| hi.2.2
+      if u = 0 then some (some [1, 0, 0, 0]) else some (some [u % 256, u / 256, 0, 0])
+    else some none
+  | _, _ => none
+
 end Dds.EncBcSites
